@@ -320,7 +320,7 @@ def make_classes(ctx: Ctx) -> Dict[str, type]:
                     is_buy, ttl = typed_fields(typ, is_buy, ttl)
                 if k == "limit":
                     price = self._price(op, market)
-                    if not (price > 0):
+                    if price != price:  # NaN only; zero and negative prices are accepted by pams (with a warning)
                         price = market.tick_size
                     if typ == "np":
                         import numpy as _np
@@ -541,6 +541,15 @@ def make_classes(ctx: Ctx) -> Dict[str, type]:
 
         def hooked_after_execution(self, simulator, execution_log):
             mon.probe_call(self.name, "execution", False, execution_log)
+            br = self.spec.get("breaker")
+            if br:
+                # a user-written circuit breaker: after its k-th fill it switches matching off for the running
+                # session from inside the hook (what the shipped halt rule does), optionally back on later
+                self._n_fills = getattr(self, "_n_fills", 0) + 1
+                if self._n_fills == int(br.get("after", 1)) and simulator.current_session is not None:
+                    simulator.current_session.with_order_execution = False
+                    self._broke = simulator.current_session
+                    mon.probe("hook_switched_matching_off")
 
         def hooked_before_session(self, simulator, session):
             mon.probe_call(self.name, "session", True, session)
@@ -550,9 +559,19 @@ def make_classes(ctx: Ctx) -> Dict[str, type]:
 
         def hooked_before_step_for_market(self, simulator, market):
             mon.probe_call(self.name, "market", True, market)
+            br = self.spec.get("breaker")
+            if br and br.get("restore") and getattr(self, "_broke", None) is simulator.current_session:
+                simulator.current_session.with_order_execution = True
+                self._broke = None
 
         def hooked_after_step_for_market(self, simulator, market):
             mon.probe_call(self.name, "market", False, market)
+            iss = self.spec.get("issue")
+            if iss and market.name == iss.get("market") and market.get_time() == int(iss.get("at", 0)) \
+                    and market.outstanding_shares is not None:
+                # a user-written share issuance: the public attribute changes at the end of a step
+                market.outstanding_shares = int(market.outstanding_shares) + int(iss.get("add", 1))
+                mon.probe("shares_issued_mid_run")
 
     out = {c.__name__: c for c in (RecLogger, TapMarket, TapIndexMarket, TapFundamentals, TapSimulator,
                                    ScriptedAgent, ScriptedHFT, Tap, ProbeEvent)}
